@@ -1,1 +1,170 @@
+(* C19 — property theorems only.  Each is closed by [exact <lemma>] (or a two-line combination)
+   and followed by Print Assumptions.
+
+   Part 1 (Network.sort, network.py:2419-2455, on paths without sub-networks), for any item type U,
+   any `reach` (reach a b = "b is downstream of a", what PathSource computes) and any `direct`
+   (streams joining two items); `dom` is any set containing the items of the path on which reach
+   is a strict partial order — e.g. all units of an acyclic flowsheet, or just the path itself.
+
+   Part 2: soundness of the certificate checker that is evaluated on every observed
+   Network.from_units result. *)
+From Coq Require Import Permutation Relations.
 From V Require Import C19.Model C19.Proofs.
+Local Open Scope nat_scope.
+
+(* the sorted path is a permutation of the input path (no hypothesis on reach: also on cyclic paths) *)
+Theorem C19_sort_perm : forall (U St : Type) (reach : U -> U -> bool) (direct : U -> U -> list St) l,
+  Permutation (sorted_path reach direct l) l.
+Proof. exact sort_perm_lemma. Qed.
+Print Assumptions C19_sort_perm.
+
+(* every item comes after all items that feed it: no later item is upstream of an earlier one *)
+Theorem C19_sort_topo : forall (U St : Type) (reach : U -> U -> bool) (direct : U -> U -> list St)
+  (dom : U -> Prop),
+  (forall a b c, dom a -> dom b -> dom c -> reach a b = true -> reach b c = true -> reach a c = true) ->
+  (forall a, dom a -> reach a a = false) ->
+  forall l, (forall x, In x l -> dom x) ->
+  forall d i j, i < j -> j < length l ->
+  reach (nth j (sorted_path reach direct l) d) (nth i (sorted_path reach direct l) d) = false.
+Proof. exact sort_topo_lemma. Qed.
+Print Assumptions C19_sort_topo.
+
+(* hence every stream between two items of the path runs forward in the sorted path *)
+Theorem C19_sort_streams_forward : forall (U St : Type) (reach : U -> U -> bool) (direct : U -> U -> list St)
+  (dom : U -> Prop),
+  (forall a b c, dom a -> dom b -> dom c -> reach a b = true -> reach b c = true -> reach a c = true) ->
+  (forall a, dom a -> reach a a = false) ->
+  forall l, (forall x, In x l -> dom x) ->
+  forall u v i j, reach u v = true ->
+  nth_error (sorted_path reach direct l) i = Some u ->
+  nth_error (sorted_path reach direct l) j = Some v -> i < j.
+Proof. exact sort_forward_lemma. Qed.
+Print Assumptions C19_sort_streams_forward.
+
+(* no recycle is added and `stop` ends True within the N*N sweeps: no 'could not be determined' warning *)
+Theorem C19_sort_quiet : forall (U St : Type) (reach : U -> U -> bool) (direct : U -> U -> list St)
+  (dom : U -> Prop),
+  (forall a b c, dom a -> dom b -> dom c -> reach a b = true -> reach b c = true -> reach a c = true) ->
+  (forall a, dom a -> reach a a = false) ->
+  forall l, (forall x, In x l -> dom x) ->
+  sort_stop reach direct l = true /\ sort_recycles reach direct l = [].
+Proof. exact sort_quiet_lemma. Qed.
+Print Assumptions C19_sort_quiet.
+
+(* whatever the order in which the items were supplied: same items, same order constraints, quiet *)
+Theorem C19_sort_input_order_independent :
+  forall (U St : Type) (reach : U -> U -> bool) (direct : U -> U -> list St) (dom : U -> Prop),
+  (forall a b c, dom a -> dom b -> dom c -> reach a b = true -> reach b c = true -> reach a c = true) ->
+  (forall a, dom a -> reach a a = false) ->
+  forall l1 l2, Permutation l1 l2 -> (forall x, In x l1 -> dom x) ->
+  Permutation (sorted_path reach direct l1) (sorted_path reach direct l2) /\
+  (forall u v i j, reach u v = true ->
+     nth_error (sorted_path reach direct l2) i = Some u ->
+     nth_error (sorted_path reach direct l2) j = Some v -> i < j) /\
+  sort_stop reach direct l2 = true /\ sort_recycles reach direct l2 = [].
+Proof.
+  intros U St reach direct dom T I l1 l2 P D.
+  assert (D2 : forall x, In x l2 -> dom x)
+    by (intros x Hx; apply D; eapply Permutation_in; [apply Permutation_sym; exact P|exact Hx]).
+  split; [apply sort_order_independent_lemma; exact P|].
+  split; [exact (sort_forward_lemma U St reach direct dom T I l2 D2)|].
+  exact (sort_quiet_lemma U St reach direct dom T I l2 D2).
+Qed.
+Print Assumptions C19_sort_input_order_independent.
+
+(* the hypotheses are decidable on a concrete path: the harness evaluates strict_onb on every case *)
+Theorem C19_sort_checked_order : forall (U St : Type) (reach : U -> U -> bool) (direct : U -> U -> list St) l,
+  strict_onb reach l = true ->
+  Permutation (sorted_path reach direct l) l /\
+  (forall u v i j, reach u v = true ->
+     nth_error (sorted_path reach direct l) i = Some u ->
+     nth_error (sorted_path reach direct l) j = Some v -> i < j) /\
+  sort_stop reach direct l = true /\ sort_recycles reach direct l = [].
+Proof.
+  intros U St reach direct l H.
+  destruct (strict_onb_sound U reach l H) as (T & I).
+  split; [apply sort_perm_lemma|].
+  split; [exact (sort_forward_lemma U St reach direct (fun x => In x l) T I l (fun x Hx => Hx))|].
+  exact (sort_quiet_lemma U St reach direct (fun x => In x l) T I l (fun x Hx => Hx)).
+Qed.
+Print Assumptions C19_sort_checked_order.
+
+(* ---- part 2: the checker.  [step es u v]: a stream goes from u to v; [has_cycle es]: some unit
+   is downstream of itself.  acyclic_clause / cyclic_clause are the two clauses of C19 (Proofs.v). *)
+Theorem C19_check_acyclic_sound : forall units es net,
+  check_acyclic units es net = true -> acyclic_clause units es net /\ ~ has_cycle es.
+Proof. exact check_acyclic_sound. Qed.
+Print Assumptions C19_check_acyclic_sound.
+
+Theorem C19_check_cyclic_sound : forall units es net cyc,
+  check_cyclic units es net cyc = true -> cyclic_clause units es net /\ has_cycle es.
+Proof. exact check_cyclic_sound. Qed.
+Print Assumptions C19_check_cyclic_sound.
+
+(* an accepted result satisfies whichever clause of C19 applies to the flowsheet *)
+Theorem C19_check_sound : forall units es net cyc, check units es net cyc = true ->
+  (~ has_cycle es -> acyclic_clause units es net) /\
+  (has_cycle es -> cyclic_clause units es net).
+Proof. exact check_sound_lemma. Qed.
+Print Assumptions C19_check_sound.
+
+(* a path that holds some unit twice is never accepted *)
+Theorem C19_check_rejects_duplicates : forall units es net cyc,
+  ~ NoDup (flat net) -> check units es net cyc = false.
+Proof. exact check_rejects_duplicates. Qed.
+Print Assumptions C19_check_rejects_duplicates.
+
+(* The full statement about Network.from_units (any function producing the network from the unit
+   list and the streams).  It is NOT proved for all flowsheets: the path-finding and joining phase
+   (fill_path and the join methods) has no model.  What is proved is the per-instance form: whenever the verified
+   checker accepts the observed result, that instance of the statement holds. *)
+Definition C19_from_units_statement (from_units : list nat -> list edge -> item) : Prop :=
+  forall units es,
+    (~ has_cycle es -> acyclic_clause units es (from_units units es)) /\
+    (has_cycle es -> cyclic_clause units es (from_units units es)).
+
+Theorem C19_from_units_partial : forall (from_units : list nat -> list edge -> item) units es cyc,
+  check units es (from_units units es) cyc = true ->
+  (~ has_cycle es -> acyclic_clause units es (from_units units es)) /\
+  (has_cycle es -> cyclic_clause units es (from_units units es)).
+Proof. intros f units es cyc. exact (check_sound_lemma units es (f units es) cyc). Qed.
+Print Assumptions C19_from_units_partial.
+
+(* ---- non-vacuity *)
+(* a concrete acyclic flowsheet: 0 -> 1 -> 3, 0 -> 2 -> 3 (streams 0..3), nothing cut.  reach_of is a
+   strict partial order on all of nat, the sort hypotheses hold with dom = everything, and the sort
+   really moves items. *)
+Definition ex_es : list edge := [(0, 0, 1); (1, 0, 2); (2, 1, 3); (3, 2, 3)].
+
+Example C19_sort_nonvacuous :
+  (forall a b c, reach_of ex_es [] a b = true -> reach_of ex_es [] b c = true -> reach_of ex_es [] a c = true) /\
+  (forall a, reach_of ex_es [] a a = false) /\
+  strict_onb (reach_of ex_es []) [3; 2; 1; 0] = true /\
+  sort_graph ex_es [] [3; 2; 1; 0] = ([0; 2; 1; 3], true, []).
+Proof.
+  split; [|split; [|split; vm_compute; reflexivity]].
+  - intros a b c.
+    destruct a as [|[|[|[|a]]]]; destruct b as [|[|[|[|b]]]]; destruct c as [|[|[|[|c]]]];
+      vm_compute; intros; congruence.
+  - intros a. destruct a as [|[|[|[|a]]]]; vm_compute; reflexivity.
+Qed.
+
+(* the checker accepts a correct acyclic result and a correct nested cyclic result, and the clauses hold *)
+Example C19_check_nonvacuous_acyclic :
+  check [3; 2; 1; 0] ex_es (INet [IUnit 0; IUnit 2; IUnit 1; IUnit 3] []) [] = true /\
+  acyclic_clause [3; 2; 1; 0] ex_es (INet [IUnit 0; IUnit 2; IUnit 1; IUnit 3] []).
+Proof.
+  split; [vm_compute; reflexivity|].
+  apply (check_acyclic_sound [3; 2; 1; 0] ex_es). vm_compute. reflexivity.
+Qed.
+
+(* 0 -> 1 -> 2 -> 3 with the stream 2 -> 1 (stream 4) closing a loop *)
+Definition ex_cyc : list edge := [(0, 0, 1); (1, 1, 2); (2, 2, 3); (4, 2, 1)].
+Example C19_check_nonvacuous_cyclic :
+  check [2; 0; 3; 1] ex_cyc (INet [IUnit 0; INet [IUnit 1; IUnit 2] [4]; IUnit 3] []) [1; 2] = true /\
+  cyclic_clause [2; 0; 3; 1] ex_cyc (INet [IUnit 0; INet [IUnit 1; IUnit 2] [4]; IUnit 3] []) /\
+  check [2; 0; 3; 1] ex_cyc (INet [IUnit 0; IUnit 1; IUnit 2; IUnit 3] []) [1; 2] = false.
+Proof.
+  split; [vm_compute; reflexivity|]. split; [|vm_compute; reflexivity].
+  apply (check_cyclic_sound [2; 0; 3; 1] ex_cyc _ [1; 2]). vm_compute. reflexivity.
+Qed.
